@@ -947,7 +947,8 @@ func main() {
 		"metadata messages and both variable contexts through the real converters, in process and through proto.Marshal/Unmarshal; hand-damaged Value messages through ToNativeValue; " +
 		"for every descriptor of functions.FunctionMap() function calls with well-typed constant or nested-call arguments (bare or below and/or/coalesce/tuple/assertion/cast) through " +
 		"json.Marshal -> json.Unmarshal -> RepopulatePhysicalExpressionFunctions -> Materialize -> Evaluate, compared with the host's evaluation; signatures of no descriptor; " +
-		"end to end through the CLI and a test plugin binary: WHERE clauses (atoms, and/or, pushable conjunct + conjunct with a subquery that stays on the host) against CSV/JSON files of the same data, " +
+		"end to end through the CLI and a test plugin binary: WHERE clauses (atoms, and/or, pushable conjunct + conjunct with a subquery that stays on the host, subquery below cast / type assertion / field access) against CSV/JSON files of the same data, " +
+		"event-time streams (records + watermarks) whose received order must be the produced order, " +
 		"and joins / IN-subqueries over 2-3 references of a plugin table whose rows and schema depend on its options (same or different options, any order); " +
 		"non-trivial = composite value/type, non-empty schema/record, multi-frame context, call of an overloaded or TypeFn-declared function; distinct by full case text"
 
